@@ -152,6 +152,164 @@ theorem inv_reachable {key : Nat → Nat} {q : Nat → Nat → α} {s : St α} (
   | init => exact inv_init key q
   | step t _ hs ih => exact inv_step ih hs
 
+/-! ### round 5c: a query function that does not return (it PANICS, or calls runtime.Goexit)
+
+`fn` of goroutine `t` does not return iff `abort t`.  What the code does then (makeCall, `c.val, c.err = fn()`
+is never executed, the deferred function runs): `delete(g.calls, key)`, `c.wg.Done()` — the object keeps
+`c.val = nil, c.err = nil`.  The leader's panic (or Goexit) travels on up its own stack (pc 5).  A follower
+parked on that object returns `(nil, false, nil)` from DoEx; back in `cacheNode.doTake` `err == nil`, `fresh ==
+false`, so it reaches `jsonx.Unmarshal(val.([]byte), v)` and the type assertion on a nil interface PANICS in the
+follower with an interface-conversion runtime error (pc 6) — not with the leader's panic value, and also when the
+leader merely called Goexit. -/
+def stepA (abort : Nat → Bool) (key : Nat → Nat) (q : Nat → Nat → α) (s : St α) (t : Nat) : Option (St α) :=
+  match s.pc t with
+  | 0 => match s.calls (key t) with
+    | some r => some { s with pc := upd s.pc t 3, ref := upd s.ref t r }
+    | none =>
+      some { s with pc := upd s.pc t 1, ref := upd s.ref t s.next,
+                    calls := upd s.calls (key t) (some s.next),
+                    heap := upd s.heap s.next { val := none, pending := true, key := key t, flight := s.flights, leader := t },
+                    next := s.next + 1, flights := s.flights + 1 }
+  | 1 => some { s with pc := upd s.pc t 2, queries := upd s.queries (key t) (s.queries (key t) + 1) }
+  | 2 =>
+    if abort t then
+      some { s with pc := upd s.pc t 5, calls := upd s.calls (key t) none,
+                    heap := upd s.heap (s.ref t) { s.heap (s.ref t) with pending := false } }
+    else
+      some { s with pc := upd s.pc t 4, calls := upd s.calls (key t) none,
+                    heap := upd s.heap (s.ref t) { s.heap (s.ref t) with val := some (q (key t) (s.heap (s.ref t)).flight), pending := false },
+                    got := upd s.got t (some (q (key t) (s.heap (s.ref t)).flight)) }
+  | 3 =>
+    if (s.heap (s.ref t)).pending then none
+    else if (s.heap (s.ref t)).val.isNone then some { s with pc := upd s.pc t 6 }   -- val.([]byte) on nil: panic
+    else some { s with pc := upd s.pc t 4, got := upd s.got t (s.heap (s.ref t)).val }
+  | _ => none
+
+inductive ReachableA (abort : Nat → Bool) (key : Nat → Nat) (q : Nat → Nat → α) : St α → Prop
+  | init : ReachableA abort key q St.init
+  | step {s s' : St α} (t : Nat) : ReachableA abort key q s → stepA abort key q s t = some s' → ReachableA abort key q s'
+
+def runA (abort : Nat → Bool) (key : Nat → Nat) (q : Nat → Nat → α) : St α → List Nat → Option (St α)
+  | s, [] => some s
+  | s, t :: ts => match stepA abort key q s t with
+    | some s' => runA abort key q s' ts
+    | none => none
+
+/-- the invariant with aborting leaders: as `Inv`, and a finished object holds EITHER the answer of its flight's
+query OR nothing (its leader aborted; ghost: `abort leader`); whoever returned (pc 4) holds an answer of a query of
+its key; a leader that aborted (pc 5) and a follower that ran into the nil value (pc 6) hold no result. -/
+structure InvA (abort : Nat → Bool) (key : Nat → Nat) (q : Nat → Nat → α) (s : St α) : Prop where
+  reg    : ∀ k r, s.calls k = some r → r < s.next ∧ (s.heap r).key = k ∧ (s.heap r).pending = true ∧ (s.heap r).val = none
+  regl   : ∀ k r, s.calls k = some r →
+             (s.pc (s.heap r).leader = 1 ∨ s.pc (s.heap r).leader = 2) ∧ s.ref (s.heap r).leader = r ∧ key (s.heap r).leader = k
+  lead   : ∀ t, (s.pc t = 1 ∨ s.pc t = 2) → s.calls (key t) = some (s.ref t) ∧ (s.heap (s.ref t)).leader = t
+  wait   : ∀ t, s.pc t = 3 → s.ref t < s.next ∧ (s.heap (s.ref t)).key = key t
+  done   : ∀ r, r < s.next → (s.heap r).pending = false →
+             (abort (s.heap r).leader = false ∧ (s.heap r).val = some (q (s.heap r).key (s.heap r).flight))
+             ∨ (abort (s.heap r).leader = true ∧ (s.heap r).val = none)
+  ret    : ∀ t, s.pc t = 4 → s.ref t < s.next ∧ (s.heap (s.ref t)).key = key t ∧ (s.heap (s.ref t)).pending = false ∧
+             s.got t = some (q (key t) (s.heap (s.ref t)).flight)
+  own    : ∀ t, s.pc t = 5 → abort t = true
+  second : ∀ t, s.pc t = 6 → s.ref t < s.next ∧ (s.heap (s.ref t)).key = key t ∧ (s.heap (s.ref t)).pending = false ∧
+             abort (s.heap (s.ref t)).leader = true
+
+theorem invA_init (abort : Nat → Bool) (key : Nat → Nat) (q : Nat → Nat → α) : InvA abort key q (St.init : St α) := by
+  refine ⟨?_, ?_, ?_, ?_, ?_, ?_, ?_, ?_⟩ <;> simp [St.init]
+
+/-
+FULL STATEMENT for aborting leaders (not proven as a whole — the eight-field induction exceeds what `grind`
+closes within the heartbeat limit; proven instead: the single transitions `aborting_leader_releases_the_key`,
+`follower_of_an_aborted_flight_panics`, and the witness schedules in PropsCalls.lean):
+  theorem invA_reachable (h : ReachableA abort key q s) : InvA abort key q s
+-/
+
+/-- the leader whose fn does not return: the call is removed from the map and the object released with
+`c.val = nil` (the deferred function of makeCall), the leader itself leaves by its panic / Goexit. -/
+theorem aborting_leader_releases_the_key (abort : Nat → Bool) (key : Nat → Nat) (q : Nat → Nat → α) (s : St α) (t : Nat)
+    (hpc : s.pc t = 2) (ha : abort t = true) :
+    ∃ s', stepA abort key q s t = some s' ∧ s'.calls (key t) = none ∧ (s'.heap (s.ref t)).pending = false
+      ∧ (s'.heap (s.ref t)).val = (s.heap (s.ref t)).val ∧ s'.pc t = 5 ∧ s'.got t = s.got t := by
+  refine ⟨_, by unfold stepA; rw [hpc]; simp only [ha, if_true]; rfl, ?_⟩
+  simp [upd]
+
+/-- a follower parked on an object that was released WITHOUT a value runs into doTake's `val.([]byte)` on a nil
+interface: it panics (pc 6) — it neither returns a value nor the leader's panic value. -/
+theorem follower_of_an_aborted_flight_panics (abort : Nat → Bool) (key : Nat → Nat) (q : Nat → Nat → α) (s : St α) (t : Nat)
+    (hpc : s.pc t = 3) (hd : (s.heap (s.ref t)).pending = false) (hv : (s.heap (s.ref t)).val = none) :
+    ∃ s', stepA abort key q s t = some s' ∧ s'.pc t = 6 ∧ s'.got t = s.got t ∧ s'.calls = s.calls := by
+  refine ⟨_, by unfold stepA; rw [hpc]; simp only [hd, hv]; rfl, ?_⟩
+  simp [upd]
+
+/-! ### round 5c: the flight group with the published value supplied from OUTSIDE (for the composition with the
+store model, ManyKeys.lean): `stepV v` is `step .fresh` with `v` in place of the oracle's answer; `InvG G` is `Inv`
+with "holds the oracle's answer" replaced by an arbitrary predicate `G key value` on what was published. -/
+def stepV (key : Nat → Nat) (v : α) (s : St α) (t : Nat) : Option (St α) :=
+  match s.pc t with
+  | 0 => match s.calls (key t) with
+    | some r => some { s with pc := upd s.pc t 3, ref := upd s.ref t r }
+    | none =>
+      some { s with pc := upd s.pc t 1, ref := upd s.ref t s.next,
+                    calls := upd s.calls (key t) (some s.next),
+                    heap := upd s.heap s.next { val := none, pending := true, key := key t, flight := s.flights, leader := t },
+                    next := s.next + 1, flights := s.flights + 1 }
+  | 1 => some { s with pc := upd s.pc t 2, queries := upd s.queries (key t) (s.queries (key t) + 1) }
+  | 2 => some { s with pc := upd s.pc t 4, calls := upd s.calls (key t) none,
+                       heap := upd s.heap (s.ref t) { s.heap (s.ref t) with val := some v, pending := false },
+                       got := upd s.got t (some v) }
+  | 3 => if (s.heap (s.ref t)).pending then none
+         else some { s with pc := upd s.pc t 4, got := upd s.got t (s.heap (s.ref t)).val }
+  | _ => none
+
+/-- `o` is a published value that satisfies `G` for key `k`. -/
+def GO (G : Nat → α → Prop) (k : Nat) (o : Option α) : Prop :=
+  match o with
+  | some v => G k v
+  | none => False
+
+@[simp, grind =] theorem GO_some (G : Nat → α → Prop) (k : Nat) (v : α) : GO G k (some v) = G k v := rfl
+
+structure InvG (key : Nat → Nat) (G : Nat → α → Prop) (s : St α) : Prop where
+  reg    : ∀ k r, s.calls k = some r → r < s.next ∧ (s.heap r).key = k ∧ (s.heap r).pending = true ∧
+             (s.pc (s.heap r).leader = 1 ∨ s.pc (s.heap r).leader = 2) ∧ s.ref (s.heap r).leader = r ∧ key (s.heap r).leader = k
+  lead   : ∀ t, (s.pc t = 1 ∨ s.pc t = 2) → s.calls (key t) = some (s.ref t) ∧ (s.heap (s.ref t)).leader = t
+  wait   : ∀ t, s.pc t = 3 → s.ref t < s.next ∧ (s.heap (s.ref t)).key = key t
+  done   : ∀ r, r < s.next → (s.heap r).pending = false → GO G (s.heap r).key (s.heap r).val
+  ret    : ∀ t, s.pc t = 4 → GO G (key t) (s.got t)
+
+theorem invG_init (key : Nat → Nat) (G : Nat → α → Prop) : InvG key G (St.init : St α) := by
+  refine ⟨?_, ?_, ?_, ?_, ?_⟩ <;> simp [St.init]
+
+theorem invG_mono {key : Nat → Nat} {G G' : Nat → α → Prop} {s : St α} (hm : ∀ k v, G k v → G' k v) (h : InvG key G s) :
+    InvG key G' s := by
+  have hgo : ∀ k o, GO G k o → GO G' k o := by
+    intro k o; cases o <;> simp [GO]; exact hm k _
+  exact ⟨h.reg, h.lead, h.wait, fun r hr hp => hgo _ _ (h.done r hr hp), fun t ht => hgo _ _ (h.ret t ht)⟩
+
+theorem invG_step {key : Nat → Nat} {G : Nat → α → Prop} {v : α} {s s' : St α} {t : Nat} (h : InvG key G s)
+    (hv : s.pc t = 2 → G (key t) v) (hs : stepV key v s t = some s') : InvG key G s' := by
+  obtain ⟨h1, h2, h3, h4, h5⟩ := h
+  unfold stepV at hs
+  split at hs
+  · split at hs
+    · cases hs
+      refine ⟨?_, ?_, ?_, ?_, ?_⟩ <;> simp only [upd] <;> grind
+    · cases hs
+      refine ⟨?_, ?_, ?_, ?_, ?_⟩ <;> simp only [upd] <;> grind
+  · cases hs
+    refine ⟨?_, ?_, ?_, ?_, ?_⟩ <;> simp only [upd] <;> grind
+  · cases hs
+    refine ⟨?_, ?_, ?_, ?_, ?_⟩ <;> simp only [upd] <;> grind
+  · split at hs
+    · cases hs
+    · cases hs
+      refine ⟨?_, ?_, ?_, ?_, ?_⟩ <;> simp only [upd] <;> grind
+  · cases hs
+
+/-- a step that is not the leader's last one does not look at the supplied value. -/
+theorem stepV_congr (key : Nat → Nat) (v v' : α) (s : St α) (t : Nat) (h : s.pc t ≠ 2) : stepV key v s t = stepV key v' s t := by
+  unfold stepV
+  split <;> first | rfl | (rename_i hpc; exact absurd hpc h)
+
 /-- how the source obtains the call object, as classified by the extractor (`Extracted.C06.createCallAlloc`). -/
 def allocOfSource : List String → Option Alloc
   | ["fresh"] => some .fresh
